@@ -165,7 +165,7 @@ func (tc *typechecker) checkArrayType(array *ast.ArrayType, length int) *typeInf
 		if length == -1 {
 			panic(tc.errorf(array, "use of [...] array outside of array literal"))
 		}
-		tc.compilation.typeInfos[array] = &typeInfo{Properties: propertyIsType, Type: tc.types.ArrayOf(length, elem.Type)}
+		tc.compilation.typeInfos[array] = &typeInfo{Properties: propertyIsType, Type: tc.arrayOf(array, length, elem.Type)}
 		return tc.compilation.typeInfos[array]
 	}
 	len := tc.checkExpr(array.Len)
@@ -183,8 +183,18 @@ func (tc *typechecker) checkArrayType(array *ast.ArrayType, length int) *typeInf
 	if b < length {
 		panic(tc.errorf(array, "array index %d out of bounds [0:%d]", length-1, b))
 	}
-	tc.compilation.typeInfos[array] = &typeInfo{Properties: propertyIsType, Type: tc.types.ArrayOf(b, elem.Type)}
+	tc.compilation.typeInfos[array] = &typeInfo{Properties: propertyIsType, Type: tc.arrayOf(array, b, elem.Type)}
 	return tc.compilation.typeInfos[array]
+}
+
+// arrayOf returns the array type with the given length and element type.
+// It panics with a type checking error if the type is larger than the
+// address space, as reflect.ArrayOf would panic.
+func (tc *typechecker) arrayOf(array *ast.ArrayType, length int, elem reflect.Type) reflect.Type {
+	if size := elem.Size(); size > 0 && uintptr(length) > ^uintptr(0)/size {
+		panic(tc.errorf(array, "type [%d]%s larger than address space", length, elem))
+	}
+	return tc.types.ArrayOf(length, elem)
 }
 
 // checkExpr type checks an expression and returns its type info.
